@@ -155,13 +155,11 @@ func (m *cmdModel) monitorCall(ci ssa.CallInstruction) *types.Func {
 	return nil
 }
 
-// chanResultIdx returns the index of the `chan struct{}` result of a signature, or -1.
+// chanResultIdx returns the index of the done-channel result (`chan struct{}` or `chan error`) of a signature, or -1.
 func chanResultIdx(sig *types.Signature) int {
 	for i := 0; i < sig.Results().Len(); i++ {
-		if ch, ok := sig.Results().At(i).Type().Underlying().(*types.Chan); ok {
-			if st, ok := ch.Elem().Underlying().(*types.Struct); ok && st.NumFields() == 0 {
-				return i
-			}
+		if isDoneChanType(sig.Results().At(i).Type()) {
+			return i
 		}
 	}
 	return -1
